@@ -21,9 +21,12 @@
 static int    vf_argc;
 static char** vf_argv;
 static int    vf_fail;
-static void vf_load (const char* name, void* dst, size_t size)
+static void vf_load_t (const char* type, const char* name, void* dst, size_t size);
+#define vf_load(name, dst, size) vf_load_t ("?", name, dst, size)
+static void vf_load_t (const char* type, const char* name, void* dst, size_t size)
 {
     size_t nl = strlen (name);
+    if (vf_argc > 1 && strcmp (vf_argv[1], "--types") == 0) { printf ("VF_TYPE %s %s %d\n", name, type, (int) size); memset (dst, 0, size); return; }
     for (int i = 1; i < vf_argc; i++)
     {
         if (strncmp (vf_argv[i], name, nl) == 0 && vf_argv[i][nl] == '=')
@@ -41,14 +44,14 @@ static void vf_load (const char* name, void* dst, size_t size)
     memset (dst, 0, size);
     printf ("note: input %s not in counterexample, using 0\n", name);
 }
-#define VF_IN(T, name)  T name; vf_load (#name, &name, sizeof (name))
+#define VF_IN(T, name)  T name; vf_load_t (#T, #name, &name, sizeof (name))
 #define VF_IN_ARR(T, name, n)                                                  \
     T name[n];                                                                 \
     for (int vf_i = 0; vf_i < (n); vf_i++)                                     \
     {                                                                          \
         char vf_b[64];                                                         \
         snprintf (vf_b, sizeof vf_b, "%s[%d]", #name, vf_i);                   \
-        vf_load (vf_b, &name[vf_i], sizeof (name[0]));                         \
+        vf_load_t (#T, vf_b, &name[vf_i], sizeof (name[0]));                   \
     }
 #define VF_ASSUME(c)                                                           \
     do { if (!(c)) { printf ("input outside the harness assumptions: %s\n", #c); exit (3); } } while (0)
